@@ -267,10 +267,17 @@ pub fn check_one(sh: &mut Shard, a: &IG, lat: &Lat, class: &str, verbose: bool) 
             let verdict: Option<bool> = match (e, a) {
                 (InvalidGeometry::InvalidPolygon(pe), IG::Polygon(r)) => error_is_real(&facts(r), pe),
                 (InvalidGeometry::InvalidMultiPolygon(me), IG::MultiPolygon(ms)) => match me {
-                    InvalidMultiPolygon::InvalidPolygon(idx, pe) => ms.get(idx.0).and_then(|m| error_is_real(&facts(m), pe)),
+                    // an index outside the member list, or the index of an empty member, names nothing that has a defect
+                    InvalidMultiPolygon::InvalidPolygon(idx, pe) => match ms.get(idx.0) {
+                        None => Some(false),
+                        Some(m) if m.is_empty() || m[0].is_empty() => Some(false),
+                        Some(m) => error_is_real(&facts(m), pe),
+                    },
                     InvalidMultiPolygon::ElementsOverlaps(i, j) | InvalidMultiPolygon::ElementsTouchOnALine(i, j) => {
                         let (mi, mj) = (ms.get(i.0), ms.get(j.0));
+                        let empty = |m: Option<&Vec<Vec<IP>>>| m.map_or(true, |m| m.is_empty() || m[0].is_empty());
                         match (mi, mj) {
+                            _ if empty(mi) || empty(mj) || i.0 == j.0 => Some(false),
                             (Some(mi), Some(mj)) if facts(mi).valid && facts(mj).valid => {
                                 let pair = vec![norm_poly(mi), norm_poly(mj)];
                                 let d = multipolygon_defect(&pair, false);
@@ -554,6 +561,16 @@ pub fn run(ctx: &Ctx, sh: &mut Shard) {
         if a.n_segments() > 80 {
             continue;
         }
+        // an empty member (valid, touches nothing) in a MultiPolygon now and then: reported member indices must still
+        // be positions in the MultiPolygon as given
+        let a = match a {
+            IG::MultiPolygon(mut ms) if r.chance(1, 4) => {
+                let at = if r.chance(1, 2) { 0 } else { r.range(0, ms.len() as i64) as usize };
+                ms.insert(at, vec![]);
+                IG::MultiPolygon(ms)
+            }
+            x => x,
+        };
         let lat = if k % 5 == 0 { Lat::random_sheared(&mut r) } else { Lat::random(&mut r) };
         check_one(sh, &a, &lat, class, false);
         if r.chance(1, 10) {
